@@ -566,6 +566,28 @@ def r5_every_equation(rule, root=None):
             rule.ok("Solver::%s visits every equation" % name, file=SOL, line=lp.get("ln", fn["ln"]))
 
 
+def r_rows_rewritten_per_equation(rule, root=None):
+    """the scratch rows that feed the evaluators are shared by all equations, and each equation numbers its variables
+    in its own way: before an equation is evaluated, the row of *every* parameter it uses is rewritten - free ones with
+    their seeds, fixed ones with their value - with no "already seeded" shortcut carried over from the previous equation"""
+    for name in ("get_jacobian", "get_err"):
+        fn = A.find_fn(SOL, name, self_ty="Solver", root=root)
+        ms = [m for m in A.find(fn["body"], "Match") if any("Parameter::Free" in A.unparse(a["pat"]) for a in m["arms"])]
+        if not ms:
+            rule.skip("Solver::%s" % name, "no match over Parameter::{Free, Fixed}", count=True)
+            continue
+        bad = None
+        for arm in ms[0]["arms"]:
+            for n in A.walk(arm["body"]):
+                if isinstance(n, dict) and n.get("k") in ("Continue", "Return", "Break"):
+                    bad = (arm, n)
+        if bad:
+            arm, n = bad
+            rule.bad("%s|skip-row" % name, "Solver::%s can leave the `%s` arm without writing the parameter's row (`%s` under `%s`): the row then keeps what the previous equation - whose variable numbering differs - left there" % (name, A.unparse(arm["pat"])[:30], A.unparse(n)[:12], " && ".join(A.enclosing_conds(arm["body"], n) or [])[:70]), A.where(SOL, n))
+        else:
+            rule.ok("Solver::%s rewrites the row of every parameter an equation uses" % name, file=SOL, line=ms[0]["ln"])
+
+
 def run(ctx):
     r = ctx.rule("R1", "only free parameters get a gradient slot and a result; fixed ones are constants at their value", 7)
     ctx.guarded(r, r1_free_fixed)
@@ -575,7 +597,8 @@ def run(ctx):
     ctx.guarded(r, r3_exits)
     r = ctx.rule("R4", "Levenberg-Marquardt step: (J^T J + damping D) delta = J^T r on symbolic matrices; damping grows on a worse trial and shrinks on an accepted one", 4)
     ctx.guarded(r, r4_lm_step)
-    r = ctx.rule("R5", "every equation is evaluated in every iteration: the loops over the tapes have no early exit", 2)
+    r = ctx.rule("R5", "every equation is evaluated in every iteration: the loops over the tapes have no early exit, and each equation rewrites the rows of all its parameters", 4)
     ctx.guarded(r, r5_every_equation)
+    ctx.guarded(r, r_rows_rewritten_per_equation)
     # this property quantifies over every shape and both backends, so it needs the evaluators it consults to be right
     ctx.include('C05', "the Jacobian is the gradient evaluators' output", skip=())
